@@ -2,8 +2,11 @@ package sim
 
 import (
 	"fmt"
+	"sort"
 	"strings"
 	"testing"
+
+	"github.com/mithrandie/csvq/lib/query"
 )
 
 // C14: evaluation never changes what it only reads: pooled values, shared
@@ -110,6 +113,45 @@ func genC14Stmt(r *Rng, reading bool) c14Stmt {
 	}
 }
 
+const typedViewDecl = "VAR @b := TRUE; DECLARE tt VIEW (i, f, d, s, b, u) AS SELECT 1, 1.5, DATETIME('2012-02-03 09:18:15'), 'one', TRUE, NULL UNION ALL SELECT 2, -2.25, DATETIME('2013-04-05 10:00:00'), ' Two ', FALSE, NULL UNION ALL SELECT 3, 0.0, DATETIME('2014-06-07 11:00:00'), '3', TRUE, NULL;"
+
+// first argument: one value of every class, held by a variable (the aliasing
+// that matters: the function receives the variable's own object)
+var fnArgVars = []string{"@x", "@n", "@f", "@d", "@u", "@b", "@d", "@x"}
+
+// following arguments: plausible parameters (time zone, count, format, pattern)
+var fnArgParams = []string{"'UTC'", "2", "'%Y-%m-%d'", "'a'", "1", "@n", "@x", "@d", "0", "'Local'"}
+var fnArgCols = []string{"i", "f", "d", "s", "b", "u", "i", "d", "s"}
+
+var builtinNames []string
+
+func genFnProbe(r *Rng) c14Stmt {
+	if builtinNames == nil {
+		for n := range query.Functions {
+			switch n {
+			case "NOW", "RAND", "RANDOM", "CALL", "UUID", "RAND_INT", "SYSTEM":
+				continue // not functions of their arguments
+			}
+			builtinNames = append(builtinNames, n)
+		}
+		sort.Strings(builtinNames)
+	}
+	fn := builtinNames[r.Intn(len(builtinNames))]
+	nargs := r.Pick(1, 1, 2, 2, 2, 3)
+	var a []string
+	from := "PRINT %s(%s);"
+	if r.Bool(0.5) {
+		a = append(a, fnArgVars[r.Intn(len(fnArgVars))])
+	} else {
+		a = append(a, fnArgCols[r.Intn(len(fnArgCols))])
+		from = "SELECT %s(%s) FROM tt;"
+	}
+	for i := 1; i < nargs; i++ {
+		a = append(a, fnArgParams[r.Intn(len(fnArgParams))])
+	}
+	return c14Stmt{Src: fmt.Sprintf(from, fn, strings.Join(a, ", ")), Repeat: 2, Reads: true}
+}
+
 type c14 struct{}
 
 func init() { Register(c14{}) }
@@ -133,7 +175,7 @@ func renderC14(sc *Scenario, m *c14Meta) {
 
 func (c14) Gen(seed uint64, tier string) *Scenario {
 	r := Sub(seed, "c14")
-	m := &c14Meta{Kind: r.PickS("mixed", "mixed", "prefix")}
+	m := &c14Meta{Kind: r.PickS("mixed", "mixed", "prefix", "fnprobe", "fnprobe")}
 	big := r.Bool(0.12)
 	if big {
 		m.NA, m.NB = r.Range(150, 400), r.Range(0, 20)
@@ -143,6 +185,17 @@ func (c14) Gen(seed uint64, tier string) *Scenario {
 	sc := &Scenario{Prop: "C14"}
 	sc.Files = []FileSpec{{Name: "a.csv", Content: genTableA(m.NA, 4, r)}, {Name: "b.csv", Content: genTableB(m.NB, m.NA, 4, r)}}
 	n := r.Range(3, 7)
+	if m.Kind == "fnprobe" {
+		// every built-in function with arguments of every value class: variables,
+		// literals and typed cells of a temporary table are only read, so they must
+		// print the same afterwards
+		m.Stmts = append(m.Stmts, c14Stmt{Src: typedViewDecl, Repeat: 1})
+		for i, np := 0, r.Range(10, 30); i < np; i++ {
+			m.Stmts = append(m.Stmts, genFnProbe(r))
+		}
+		m.Stmts = append(m.Stmts, c14Stmt{Src: "VAR @z1 := DATETIME('2030-01-01 00:00:00'); VAR @z2 := 'zzz' || 'y'; VAR @z3 := 12345 + 1; VAR @z4 := 1.25 * 2; SELECT * FROM tt; PRINT @b;", Repeat: 1, Reads: true})
+		n = 0
+	}
 	for i := 0; i < n; i++ {
 		m.Stmts = append(m.Stmts, genC14Stmt(r, m.Kind == "prefix"))
 	}
